@@ -348,6 +348,9 @@ def run(ch, ctx, fault=None):
             if dyn_member:
                 img.size = getattr(ti_image.Size, dyn_member)
                 desc += " size=Size.%s" % dyn_member
+                if img.rendered_width * img.rendered_height > 300:
+                    img.size = ti_image.Size.FIT
+                    desc += " (too large: Size.FIT)"
             d["image"] = img
             d["size0"] = img.size
             d["desc"] = desc
@@ -504,6 +507,13 @@ def run(ch, ctx, fault=None):
                         mname = ch.pick("mname", ("FIT", "AUTO", "ORIGINAL", "FIT_TO_WIDTH"))
                         d["image"].size = getattr(ti_image.Size, mname)
                         desc = "%s.size = Size.%s" % (d["desc"], mname)
+                    try:
+                        big = d["image"].rendered_width * d["image"].rendered_height > 300
+                    except Exception:
+                        big = False
+                    if big:       # keep worlds cheap: every PIL step is a fault position
+                        d["image"].size = ti_image.Size.FIT
+                        desc += " (too large for this world: back to Size.FIT)"
                     d["size0"] = d["image"].size
                     if d["size0"] not in hist:
                         hist.append(d["size0"])
